@@ -450,13 +450,10 @@ Walk:
 		if charsMatched < len(path) {
 			// linear search
 			idx := -1
-			// A '{' or '*' in the request is never a static match for the key of a param or catch-all child.
-			if path[charsMatched] != bracketDelim && path[charsMatched] != starDelim {
-				for i := 0; i < len(current.childKeys); i++ {
-					if current.childKeys[i] == path[charsMatched] {
-						idx = i
-						break
-					}
+			for i := 0; i < len(current.childKeys); i++ {
+				if current.childKeys[i] == path[charsMatched] {
+					idx = i
+					break
 				}
 			}
 
